@@ -99,12 +99,29 @@ def c17sync (toks : List String) : String :=
   | some ((c, b, a, gb, r), _) => acceptSyncCall c b a gb r
   | none => "bad-op"
 
+/-- `c17tcs <n> {kind done <before: n1,..,nk|-> <after: n1,..,nk|->}`: the listener's armed deferral timers before and after each
+observed block (`explainsTcs`) → one verdict per block -/
+def tcsParse : Tok String := do
+  let k ← Tok.next
+  let d ← Tok.bool
+  let b ← Tok.natList
+  let a ← Tok.natList
+  match kindOf k with
+  | some kind => pure (explainsTcs kind d b a)
+  | none => failure
+
+def c17tcs (toks : List String) : String :=
+  match (do let vs ← Tok.list tcsParse; Tok.done; pure vs : Tok (List String)).run toks with
+  | some (vs, _) => ";".intercalate vs
+  | none => "bad-op"
+
 def dispatch (cmd : String) (rest : List String) : Option String :=
   match cmd with
   | "c17run" => some (c17run rest)
   | "c17closed" => some (c17closed rest)
   | "c17closes" => some (c17closes rest)
   | "c17sync" => some (c17sync rest)
+  | "c17tcs" => some (c17tcs rest)
   | _ => none
 
 end Zc.Driver.C17
